@@ -174,22 +174,25 @@ func main() {
 		// simulator must own. It is replaced by a deterministic LIFO pool with
 		// the same happens-before semantics (Put(x) -> the Get that returns x).
 		pools := 0
+		rewrite := map[string]string{"Pool": "verifPool", "Mutex": "verifMutex", "RWMutex": "verifRWMutex"}
 		ast.Inspect(f, func(n ast.Node) bool {
 			se, ok := n.(*ast.SelectorExpr)
 			if !ok {
 				return true
 			}
-			if id, ok := se.X.(*ast.Ident); ok && id.Name == "sync" && se.Sel.Name == "Pool" {
-				b := fset.Position(se.Pos()).Offset
-				e := fset.Position(se.End()).Offset
-				ins = append(ins, insertion{off: b, text: "\x00" + fmt.Sprint(e-b) + "\x00verifPool", ord: ord})
-				ord++
-				pools++
+			if id, ok := se.X.(*ast.Ident); ok && id.Name == "sync" {
+				if to, ok := rewrite[se.Sel.Name]; ok {
+					b := fset.Position(se.Pos()).Offset
+					e := fset.Position(se.End()).Offset
+					ins = append(ins, insertion{off: b, text: "\x00" + fmt.Sprint(e-b) + "\x00" + to, ord: ord})
+					ord++
+					pools++
+				}
 			}
 			return true
 		})
 		if pools > 0 {
-			ins = append(ins, insertion{off: len(src), text: "\nvar _ sync.Locker // keep the import used after the sync.Pool rewrite\n", ord: ord})
+			ins = append(ins, insertion{off: len(src), text: "\nvar _ sync.Locker // keep the import used after the sync.Pool / Mutex / RWMutex rewrite\n", ord: ord})
 			ord++
 			poolRewrites += pools
 		}
@@ -231,7 +234,7 @@ func main() {
 	writeHooks(*dir, pkgName)
 	writeRaceShims(*dir, pkgName)
 	writeAccess(*dir, pkgName, globals, hasBigIntInner && hasNegSentinel)
-	fmt.Printf("instr: %d files, %d yield sites, %d package-level vars, %d sync.Pool rewrites, knobs=%v\n", len(files), len(sites), len(globals), poolRewrites, knobApplied)
+	fmt.Printf("instr: %d files, %d yield sites, %d package-level vars, %d sync.{Pool,Mutex,RWMutex} rewrites, knobs=%v\n", len(files), len(sites), len(globals), poolRewrites, knobApplied)
 }
 
 func fatal(err error) {
@@ -383,18 +386,9 @@ func instrumentBody(fset *token.FileSet, file, fn string, body *ast.BlockStmt, a
 			switch s := st.(type) {
 			case *ast.ExprStmt:
 				switch selCallName(s.X) {
-				case "Lock", "RLock":
-					text += "verifLk(1); "
-				case "Unlock", "RUnlock":
-					add(s.End(), "; verifLk(-1)")
 				case "Do":
 					text += "verifLk(1); "
 					add(s.End(), "; verifLk(-1)")
-				}
-			case *ast.DeferStmt:
-				switch selCallName(s.Call) {
-				case "Unlock", "RUnlock":
-					text += "defer verifLk(-1); "
 				}
 			}
 			add(st.Pos(), text)
@@ -565,6 +559,150 @@ func (p *verifPool) Put(x interface{}) {
 //go:norace
 func verifDataPtr(x interface{}) unsafe.Pointer {
 	return (*[2]unsafe.Pointer)(unsafe.Pointer(&x))[1]
+}
+
+// Simulated locks. sync.Mutex and sync.RWMutex of the tree under test are
+// replaced by these in the instrumented copy, so that lock acquisition is a
+// scheduling point the simulator owns: a task that cannot take a lock is
+// descheduled by the simulator (never parked by the Go runtime), tasks may be
+// preempted inside critical sections, and a state in which every live task
+// waits for a lock is reported as a deadlock. Happens-before edges for the race
+// detector are those of the real primitives.
+var VerifWait func(addr unsafe.Pointer)
+var VerifWake func(addr unsafe.Pointer)
+
+//go:norace
+func verifBlock(addr unsafe.Pointer) {
+	if VerifWait == nil {
+		panic("apd (instrumented): a lock is held and no simulation is active")
+	}
+	VerifWait(addr)
+}
+
+//go:norace
+func verifUnblock(addr unsafe.Pointer) {
+	if VerifWake != nil {
+		VerifWake(addr)
+	}
+}
+
+type verifMutex struct {
+	held bool
+	pad  uint8
+}
+
+//go:norace
+func (m *verifMutex) Lock() {
+	for m.held {
+		verifBlock(unsafe.Pointer(m))
+	}
+	m.held = true
+	verifRaceAcquire(unsafe.Pointer(m))
+}
+
+//go:norace
+func (m *verifMutex) TryLock() bool {
+	if m.held {
+		return false
+	}
+	m.held = true
+	verifRaceAcquire(unsafe.Pointer(m))
+	return true
+}
+
+//go:norace
+func (m *verifMutex) Unlock() {
+	if !m.held {
+		panic("sync: unlock of unlocked mutex")
+	}
+	verifRaceRelease(unsafe.Pointer(m))
+	m.held = false
+	verifUnblock(unsafe.Pointer(m))
+}
+
+// verifRWMutex has Go's writer preference: once a writer waits, new readers
+// wait too (so a recursive read lock can deadlock, as with sync.RWMutex).
+type verifRWMutex struct {
+	readers        int32
+	writersWaiting int32
+	writer         bool
+	rsem, wsem     uint8
+}
+
+//go:norace
+func (m *verifRWMutex) RLock() {
+	for m.writer || m.writersWaiting > 0 {
+		verifBlock(unsafe.Pointer(m))
+	}
+	m.readers++
+	verifRaceAcquire(unsafe.Pointer(&m.rsem))
+}
+
+//go:norace
+func (m *verifRWMutex) TryRLock() bool {
+	if m.writer || m.writersWaiting > 0 {
+		return false
+	}
+	m.readers++
+	verifRaceAcquire(unsafe.Pointer(&m.rsem))
+	return true
+}
+
+//go:norace
+func (m *verifRWMutex) RUnlock() {
+	if m.readers <= 0 {
+		panic("sync: RUnlock of unlocked RWMutex")
+	}
+	verifRaceRelease(unsafe.Pointer(&m.wsem))
+	m.readers--
+	verifUnblock(unsafe.Pointer(m))
+}
+
+//go:norace
+func (m *verifRWMutex) Lock() {
+	m.writersWaiting++
+	for m.writer || m.readers > 0 {
+		verifBlock(unsafe.Pointer(m))
+	}
+	m.writersWaiting--
+	m.writer = true
+	verifRaceAcquire(unsafe.Pointer(&m.rsem))
+	verifRaceAcquire(unsafe.Pointer(&m.wsem))
+}
+
+//go:norace
+func (m *verifRWMutex) TryLock() bool {
+	if m.writer || m.readers > 0 {
+		return false
+	}
+	m.writer = true
+	verifRaceAcquire(unsafe.Pointer(&m.rsem))
+	verifRaceAcquire(unsafe.Pointer(&m.wsem))
+	return true
+}
+
+//go:norace
+func (m *verifRWMutex) Unlock() {
+	if !m.writer {
+		panic("sync: Unlock of unlocked RWMutex")
+	}
+	verifRaceRelease(unsafe.Pointer(&m.rsem))
+	verifRaceRelease(unsafe.Pointer(&m.wsem))
+	m.writer = false
+	verifUnblock(unsafe.Pointer(m))
+}
+
+type verifRLocker verifRWMutex
+
+func (r *verifRLocker) Lock()   { (*verifRWMutex)(r).RLock() }
+func (r *verifRLocker) Unlock() { (*verifRWMutex)(r).RUnlock() }
+
+// RLocker mirrors (*sync.RWMutex).RLocker.
+func (m *verifRWMutex) RLocker() interface {
+	Lock()
+	Unlock()
+} {
+	return (*verifRLocker)(m)
 }
 
 // VerifSite describes one yield site.
